@@ -2590,6 +2590,399 @@ theorem lchain_rel (b : Bytes) (base l0 nh : Nat) (frag : Bool) (sl : Dec.ExtSlo
     rw [lextsLoop_none _ _ _ h0 (lslot_other free nh (fun h => hn (.inl h)) (fun h => hn (.inr h)) h44 h51)]
     exact LChainRel.done b _ base o l got nh frag sl st hg
 
+theorem gotMatch_nil (b : Bytes) : GotMatch b [] Dec.ExtSlots.none := by
+  intro k; cases k <;> rfl
+
+/-- `Ipv6Extensions::read_limited` against `Ipv6Extensions::from_slice` (struct mode) on the window
+    `(o, l)` of `b`: the optional hop-by-hop header, then the loop -/
+theorem lwalk_rel (b : Bytes) (nh o l : Nat) (st : LSt)
+    (h1 : st.maxLen - st.readLen = l) (h2 : st.readLen ≤ st.maxLen) (h3 : st.layerOffset + st.readLen = o)
+    (h4 : o + l ≤ b.length) :
+    LChainRel b st.src o o [] (Dec.extsWalk (Dec.memOf b) true nh o l)
+      (evalOnL (LReads.ipv6exts nh) st (b.drop o)) := by
+  unfold Dec.extsWalk LReads.ipv6exts
+  by_cases hs : nh = 0
+  · subst hs
+    simp only [if_true]
+    have hR : st.maxLen - st.readLen ≤ (b.drop o).length := by simp only [List.length_drop]; omega
+    have hlen := rawextLen_drop b o
+    unfold Dec.rawExtFromSlice
+    by_cases h8 : l < 8
+    · simp only [if_pos h8]
+      have : 8 ≤ rawextLen (b.drop o) := by unfold rawextLen; omega
+      obtain ⟨le, c, st', he, hle, hreq⟩ := (lrawext_step _ st (b.drop o) hR).1 (by omega)
+      rw [he]
+      simp only [LChainRel]
+      obtain ⟨e1, e2, e3, e4, e5⟩ := hle
+      exact ⟨le, rfl, by simp only; omega, e2, e3, by simp only; omega, e5, fun h => by
+        rcases h with h | h
+        · simp only at h; omega
+        · exact absurd rfl h⟩
+    · simp only [if_neg h8]
+      by_cases hl : l < (Dec.memOf b (o + 1) + 1) * 8
+      · simp only [if_pos hl]
+        obtain ⟨le, c, st', he, hle, hreq⟩ := (lrawext_step _ st (b.drop o) hR).1 (by omega)
+        rw [he]
+        simp only [LChainRel]
+        obtain ⟨e1, e2, e3, e4, e5⟩ := hle
+        exact ⟨le, rfl, by simp only; omega, e2, e3, by simp only; omega, e5, fun _ => by
+          simp only; rw [hreq (by omega), hlen]⟩
+      · simp only [if_neg hl]
+        rw [(lrawext_step _ st (b.drop o) hR).2 (by omega), hlen, List.drop_drop]
+        have htk : (b.drop o).take ((Dec.memOf b (o + 1) + 1) * 8) = sub b o ((Dec.memOf b (o + 1) + 1) * 8) := rfl
+        rw [htk, bAt_sub_zero b o _ (by omega)]
+        apply LChainRel.lift b st.src o o _ [] .hbh
+        refine lchain_rel b o l _ false _ _ _ _ _ (st.after "Ipv6ExtHeader" ((Dec.memOf b (o + 1) + 1) * 8))
+          (FreeInvW.init _) ?_ (by simp only [LSt.after]; omega) (by simp only [LSt.after]; omega)
+          (by simp only [LSt.after]; omega) (by omega) (by omega) (by omega)
+        intro k; cases k <;> rfl
+  · simp only [if_neg hs]
+    exact lchain_rel b o l nh false _ o l _ [] st (FreeInvW.init none) (gotMatch_nil b) h1 h2 h3 h4
+      (Nat.le_refl _) (by omega)
+
+/-! ### `IpHeaders::read` on a byte string -/
+
+theorem liftErr_run {α : Type} (p : LProg α) (pre b : Bytes) (m : Nat) (st : LSt) (hm : m ≤ b.length)
+    (hst : st.readLen ≤ st.maxLen) :
+    liftErr (p.run (limitedAdv pre b m st)) =
+      (readerAdv pre b (m + (evalOnL p st (b.drop m)).2.1), (evalOnL p st (b.drop m)).1) := by
+  rw [runL_adv p pre b m st hm hst]; rfl
+
+/-- bookkeeping of the `LimitedReader` `IpHeaders::read` creates behind an IPv4 / IPv6 header -/
+def st4 (hl tl : Nat) : LSt :=
+  { maxLen := tl - hl, readLen := 0, layerOffset := hl, layer := "Ipv4Header", src := "Ipv4HeaderTotalLen" }
+def st6 (pl : Nat) : LSt :=
+  { maxLen := pl, readLen := 0, layerOffset := 40, layer := "Ipv6Header", src := "Ipv6HeaderPayloadLen" }
+
+theorem ipHeadersRead_empty (pre b : Bytes) (h : b.length < 1) :
+    ipHeadersRead (readerAt pre b) = (readerAdv pre b b.length, .error (.io .unexpectedEof)) := by
+  unfold ipHeadersRead readerAt
+  rw [readExact_adv pre b 0 1 (Nat.zero_le _), if_neg (by simp only [List.drop_zero]; omega)]
+
+theorem ipHeadersRead_first (pre b : Bytes) (h : 1 ≤ b.length) :
+    (readerAdv pre b 0).readExact 1 = (readerAdv pre b 1, .ok (b.take 1)) := by
+  rw [readExact_adv pre b 0 1 (Nat.zero_le _), if_pos (by simp only [List.drop_zero]; omega)]
+  simp
+
+theorem ipHeadersRead_fail (pre b : Bytes) (h : 1 ≤ b.length) (s : String)
+    (hp : ipHeadersPlan (b.take 1) = .fail s) :
+    ipHeadersRead (readerAt pre b) = (readerAdv pre b 1, .error (.other s)) := by
+  unfold ipHeadersRead readerAt
+  rw [ipHeadersRead_first pre b h]
+  simp only [hp]
+
+theorem ipHeadersRead_v4_short (pre b : Bytes) (h : 1 ≤ b.length) (rest : Nat)
+    (hp : ipHeadersPlan (b.take 1) = .v4 rest) (hs : b.length < 1 + rest) :
+    ipHeadersRead (readerAt pre b) = (readerAdv pre b b.length, .error (.io .unexpectedEof)) := by
+  unfold ipHeadersRead readerAt
+  rw [ipHeadersRead_first pre b h]
+  simp only [hp]
+  rw [readExact_adv pre b 1 rest h, if_neg (by simp only [List.length_drop]; omega)]
+
+theorem ipHeadersRead_v4_total (pre b : Bytes) (h : 1 ≤ b.length) (rest : Nat)
+    (hp : ipHeadersPlan (b.take 1) = .v4 rest) (hs : 1 + rest ≤ b.length) (ht : be16 b 2 < 1 + rest)
+    (h4 : 4 ≤ 1 + rest) :
+    ipHeadersRead (readerAt pre b) =
+      (readerAdv pre b (1 + rest),
+        .error (.len { required := 1 + rest, len := be16 b 2, src := "Ipv4HeaderTotalLen",
+                       layer := "Ipv4Packet", off := 0 })) := by
+  unfold ipHeadersRead readerAt
+  rw [ipHeadersRead_first pre b h]
+  simp only [hp]
+  rw [readExact_adv pre b 1 rest h, if_pos (by simp only [List.length_drop]; omega)]
+  simp only [← List.take_add]
+  rw [be16_take b (1 + rest) 2 (by omega), if_pos (by omega)]
+  simp only [Nat.add_comm rest 1]
+
+theorem ipHeadersRead_v4_exts (pre b : Bytes) (h : 1 ≤ b.length) (rest : Nat)
+    (hp : ipHeadersPlan (b.take 1) = .v4 rest) (hs : 1 + rest ≤ b.length) (ht : ¬ be16 b 2 < 1 + rest)
+    (h10 : 10 ≤ 1 + rest) :
+    ipHeadersRead (readerAt pre b) =
+      (readerAdv pre b (1 + rest +
+          (evalOnL (LReads.ipv4exts (bAt b 9)) (st4 (1 + rest) (be16 b 2)) (b.drop (1 + rest))).2.1),
+        match (evalOnL (LReads.ipv4exts (bAt b 9)) (st4 (1 + rest) (be16 b 2)) (b.drop (1 + rest))).1 with
+        | .ok (a, next) => .ok (.v4 (b.take (1 + rest)) a next)
+        | .error e => .error e) := by
+  unfold ipHeadersRead readerAt
+  rw [ipHeadersRead_first pre b h]
+  simp only [hp]
+  rw [readExact_adv pre b 1 rest h, if_pos (by simp only [List.length_drop]; omega)]
+  simp only [← List.take_add]
+  rw [be16_take b (1 + rest) 2 (by omega), bAt_take b (1 + rest) 9 (by omega), if_neg (by omega)]
+  have hnew : Limited.new (readerAdv pre b (1 + rest)) (be16 b 2 - (rest + 1)) "Ipv4HeaderTotalLen" (rest + 1)
+      "Ipv4Header" = limitedAdv pre b (1 + rest) (st4 (1 + rest) (be16 b 2)) := by
+    simp only [Limited.new, limitedAdv, st4, Nat.add_comm rest 1]
+  rw [hnew, liftErr_run _ pre b (1 + rest) _ hs (by simp [st4])]
+  cases (evalOnL (LReads.ipv4exts (bAt b 9)) (st4 (1 + rest) (be16 b 2)) (b.drop (1 + rest))).1 with
+  | ok x => rfl
+  | error e => rfl
+
+theorem ipHeadersRead_v6_short (pre b : Bytes) (h : 1 ≤ b.length)
+    (hp : ipHeadersPlan (b.take 1) = .v6) (hs : b.length < 40) :
+    ipHeadersRead (readerAt pre b) = (readerAdv pre b b.length, .error (.io .unexpectedEof)) := by
+  unfold ipHeadersRead readerAt
+  rw [ipHeadersRead_first pre b h]
+  simp only [hp]
+  rw [readExact_adv pre b 1 39 h, if_neg (by simp only [List.length_drop]; omega)]
+
+theorem ipHeadersRead_v6_exts (pre b : Bytes) (h : 1 ≤ b.length)
+    (hp : ipHeadersPlan (b.take 1) = .v6) (hs : 40 ≤ b.length) :
+    ipHeadersRead (readerAt pre b) =
+      (readerAdv pre b (40 + (evalOnL (LReads.ipv6exts (bAt b 6)) (st6 (be16 b 4)) (b.drop 40)).2.1),
+        match (evalOnL (LReads.ipv6exts (bAt b 6)) (st6 (be16 b 4)) (b.drop 40)).1 with
+        | .ok e => .ok (.v6 (b.take 40) e)
+        | .error e => .error e) := by
+  unfold ipHeadersRead readerAt
+  rw [ipHeadersRead_first pre b h]
+  simp only [hp]
+  rw [readExact_adv pre b 1 39 h, if_pos (by simp only [List.length_drop]; omega)]
+  simp only [← List.take_add]
+  rw [be16_take b (1 + 39) 4 (by omega), bAt_take b (1 + 39) 6 (by omega)]
+  have hnew : Limited.new (readerAdv pre b (1 + 39)) (be16 b 4) "Ipv6HeaderPayloadLen" 40 "Ipv6Header" =
+      limitedAdv pre b 40 (st6 (be16 b 4)) := rfl
+  rw [hnew, liftErr_run _ pre b 40 _ hs (by simp [st6])]
+  cases (evalOnL (LReads.ipv6exts (bAt b 6)) (st6 (be16 b 4)) (b.drop 40)).1 with
+  | ok x => rfl
+  | error e => rfl
+
+/-! ### `IpHeaders::read` against `IpHeaders::from_slice` -/
+
+/-- the slice holds the packet its IP header announces, and the announced length is what bounds the
+    payload: the two rules of `IpHeaders::from_slice` that need the end of the slice (total_len /
+    payload_length against the slice length; payload_length 0 = "to the end of the slice") do not fire -/
+def HoldsAnnounced (b : Bytes) : Prop :=
+  (bAt b 0 / 16 = 4 → be16 b 2 ≤ b.length) ∧
+  (bAt b 0 / 16 = 6 → 40 + be16 b 4 ≤ b.length ∧ ¬ (be16 b 4 = 0 ∧ 40 < b.length))
+
+instance (b : Bytes) : Decidable (HoldsAnnounced b) := by unfold HoldsAnnounced; infer_instance
+
+/-- what `IpHeaders::read` returned against the struct-mode result of `IpHeaders::from_slice` (windows of
+    `b`): same header bytes, same extension headers in the same slots, same next ip number -/
+def IpViewMatch (b : Bytes) (r : Dec.IpR) : IpRead → Prop
+  | .v4 h a next =>
+    r.v4 = true ∧ h = sub b r.hdr.o r.hdr.l ∧ a = r.auth.map (fun w => sub b w.o w.l) ∧ next = r.pl.num
+  | .v6 h e =>
+    r.v4 = false ∧ h = sub b r.hdr.o r.hdr.l ∧ e.next = r.pl.num ∧ GotMatch b e.got r.slots ∧
+      gathered e.got = sub b 40 (r.pl.w.o - 40)
+
+/-- the error of `IpHeaders::from_slice` against the error of `IpHeaders::read` -/
+def IpErrAgrees (b : Bytes) : Dec.PErr → LErr → Prop
+  | .len e, le =>
+    if e.src = .slice then
+      -- the header itself is cut by the end of the slice: the reader runs dry - or, on fewer than 20
+      -- bytes, has already seen the bad IHL in the first byte
+      le = .io .unexpectedEof ∨ (b.length < 20 ∧ le = .other s!"err(ihl({bAt b 0 % 16}))")
+    else ∃ l', le = .len l' ∧ LenErrAgrees (srcText e.src) 0 e l'
+  | .ipVersion v, le => le = .other s!"err(version({v}))"
+  | .ipIhl i, le => le = .other s!"err(ihl({i}))"
+  | .ipv4ExtsZeroLen, le => le = .other "err(zeropayloadlen)"
+  | .ipv6ExtsAuthZeroLen, le => le = .other "err(zeropayloadlen)"
+  | .ipv6HopByHop, le => le = .other "err(hbhnotatstart)"
+  | _, _ => False
+
+theorem g16_memOf (b : Bytes) (i : Nat) : Dec.g16 (Dec.memOf b) i = be16 b i := rfl
+
+theorem sub_zero' (b : Bytes) (n : Nat) : sub b 0 n = b.take n := by simp [sub]
+
+theorem and15' (x : Nat) : x &&& 0xf = x % 16 := Nat.and_two_pow_sub_one_eq_mod x 4
+theorem shr4 (x : Nat) : x >>> 4 = x / 16 := Nat.shiftRight_eq_div_pow x 4
+
+theorem plan_take (b : Bytes) :
+    ipHeadersPlan (b.take 1) =
+      if bAt b 0 / 16 = 4 then
+        (if bAt b 0 % 16 < 5 then .fail s!"err(ihl({bAt b 0 % 16}))" else .v4 (bAt b 0 % 16 * 4 - 1))
+      else if bAt b 0 / 16 = 6 then .v6
+      else .fail s!"err(version({bAt b 0 / 16}))" := by
+  unfold ipHeadersPlan
+  simp only [bAt_take b 1 0 (by omega), and15', shr4]
+
+/-- IPv4: the part behind the header (`hl ≤ total_len ≤ slice length`) -/
+theorem ipv4_after (pre b : Bytes) (hl : Nat) (h20 : 20 ≤ hl) (hfit : hl ≤ b.length)
+    (hp : ipHeadersPlan (b.take 1) = .v4 (hl - 1)) (htl : be16 b 2 ≤ b.length) :
+    match Dec.ipv4AfterHeaderStrict (Dec.memOf b) 0 b.length hl with
+    | .ok r => ∃ v, ipHeadersRead (readerAt pre b) = (readerAdv pre b r.pl.w.o, .ok v) ∧ IpViewMatch b r v
+    | .error e => ∃ n le, ipHeadersRead (readerAt pre b) = (readerAdv pre b n, .error le) ∧ IpErrAgrees b e le := by
+  have h1 : 1 ≤ b.length := by omega
+  have hrest : 1 + (hl - 1) = hl := by omega
+  unfold Dec.ipv4AfterHeaderStrict Dec.ipv4BoundStrict
+  simp only [g16_memOf, Nat.zero_add]
+  by_cases ht : be16 b 2 < hl
+  · simp only [if_pos ht]
+    have := ipHeadersRead_v4_total pre b h1 (hl - 1) hp (by omega) (by omega) (by omega)
+    rw [hrest] at this
+    refine ⟨_, _, this, ?_⟩
+    simp only [IpErrAgrees, show ¬ (Dec.LenSource.ipv4HeaderTotalLen = Dec.LenSource.slice) by decide, if_false]
+    exact ⟨_, rfl, rfl, rfl, rfl, rfl, ht, fun _ => rfl⟩
+  · simp only [if_neg ht, if_neg (show ¬ b.length < be16 b 2 by omega)]
+    have hr := ipHeadersRead_v4_exts pre b h1 (hl - 1) hp (by omega) (by omega) (by omega)
+    rw [hrest] at hr
+    have hproto : Dec.memOf b 9 = bAt b 9 := rfl
+    rw [hproto]
+    have hR : (st4 hl (be16 b 2)).maxLen - (st4 hl (be16 b 2)).readLen ≤ (b.drop hl).length := by
+      simp only [st4, List.length_drop]; omega
+    by_cases h51 : bAt b 9 = 51
+    · simp only [if_pos h51]
+      have hprog : LReads.ipv4exts (bAt b 9) =
+          LReads.auth.bind fun g => .done (.ok (some g, bAt g 0)) := by
+        unfold LReads.ipv4exts CodecNet.ipNumberAuth; rw [if_pos h51.symm]
+      rw [hprog] at hr
+      have hstep := lauth_step (fun g => (.done (.ok (some g, bAt g 0)) : LProg (Option Bytes × Nat)))
+        (st4 hl (be16 b 2)) (b.drop hl) hR
+      have hRv : (st4 hl (be16 b 2)).maxLen - (st4 hl (be16 b 2)).readLen = be16 b 2 - hl := by simp [st4]
+      have hlenA := authLen_drop b hl
+      have hb1 : bAt (b.drop hl) 1 = Dec.memOf b (hl + 1) := bAt_drop b hl 1
+      unfold Dec.ahFromSlice
+      by_cases c12 : be16 b 2 - hl < 12
+      · simp only [if_pos c12]
+        obtain ⟨le, c, st', he, hle, hreq⟩ := hstep.1 (by omega)
+        rw [he] at hr
+        refine ⟨_, _, hr, ?_⟩
+        simp only [IpErrAgrees, Dec.LenError.withSrc, Dec.LenError.addOffset,
+          show ¬ (Dec.LenSource.ipv4HeaderTotalLen = Dec.LenSource.slice) by decide, if_false]
+        obtain ⟨e1, e2, e3, e4, e5⟩ := hle
+        exact ⟨le, rfl, by simp only; omega, e2, e3, by simp only [e4, st4]; omega, e5, fun _ => hreq⟩
+      · simp only [if_neg c12]
+        by_cases cz : Dec.memOf b (hl + 1) < 1
+        · simp only [if_pos cz]
+          obtain ⟨st', he⟩ := hstep.2.1 (by omega) (by rw [hb1]; exact cz)
+          rw [he] at hr
+          exact ⟨_, _, hr, rfl⟩
+        · simp only [if_neg cz]
+          by_cases cl : be16 b 2 - hl < (Dec.memOf b (hl + 1) + 2) * 4
+          · simp only [if_pos cl]
+            obtain ⟨le, c, st', he, hle, hreq⟩ := hstep.2.2.1 (by omega) (by rw [hb1]; exact cz) (by omega)
+            rw [he] at hr
+            refine ⟨_, _, hr, ?_⟩
+            simp only [IpErrAgrees, Dec.LenError.withSrc, Dec.LenError.addOffset,
+              show ¬ (Dec.LenSource.ipv4HeaderTotalLen = Dec.LenSource.slice) by decide, if_false]
+            obtain ⟨e1, e2, e3, e4, e5⟩ := hle
+            exact ⟨le, rfl, by simp only; omega, e2, e3, by simp only [e4, st4]; omega, e5,
+              fun _ => by simp only; rw [hreq, hlenA]⟩
+          · simp only [if_neg cl]
+            have he := hstep.2.2.2 (by omega) (by rw [hb1]; exact cz) (by omega)
+            rw [he, hlenA] at hr
+            simp only [evalOnL, Nat.add_zero] at hr
+            refine ⟨_, hr, ?_⟩
+            have htk : (b.drop hl).take ((Dec.memOf b (hl + 1) + 2) * 4) =
+                sub b hl ((Dec.memOf b (hl + 1) + 2) * 4) := rfl
+            simp only [IpViewMatch, Dec.mkV4, htk, sub_zero', Option.map_some, true_and]
+            exact bAt_sub_zero b hl _ (by omega)
+    · simp only [if_neg h51]
+      have hprog : LReads.ipv4exts (bAt b 9) = .done (.ok (none, bAt b 9)) := by
+        unfold LReads.ipv4exts CodecNet.ipNumberAuth; rw [if_neg (fun h => h51 h.symm)]
+      rw [hprog] at hr
+      simp only [evalOnL, Nat.add_zero] at hr
+      refine ⟨_, hr, ?_⟩
+      simp only [IpViewMatch, Dec.mkV4, sub_zero', Option.map_none, true_and]
+
+theorem lenErrAgrees_wrap (src : Dec.LenSource) (e : Dec.LenError) (le : LenErr)
+    (h : LenErrAgrees (srcText src) 40 e le) :
+    LenErrAgrees (srcText ((e.withSrc src).addOffset 40).src) 0 ((e.withSrc src).addOffset 40) le := by
+  obtain ⟨h1, h2, h3, h4, h5, h6⟩ := h
+  exact ⟨h1, h2, h3, by simp only [Dec.LenError.withSrc, Dec.LenError.addOffset]; omega, h5, h6⟩
+
+/-- IPv6: the part behind the header (`40 + payload_length ≤ slice length`, payload_length not the
+    "to the end of the slice" zero) -/
+theorem ipv6_after (pre b : Bytes) (h40 : 40 ≤ b.length) (hp : ipHeadersPlan (b.take 1) = .v6)
+    (hpl : 40 + be16 b 4 ≤ b.length) (hz : ¬ (be16 b 4 = 0 ∧ 40 < b.length)) :
+    match Dec.ipv6AfterHeaderStrict (Dec.memOf b) true 0 b.length with
+    | .ok r => ∃ v, ipHeadersRead (readerAt pre b) = (readerAdv pre b r.pl.w.o, .ok v) ∧ IpViewMatch b r v
+    | .error e => ∃ n le, ipHeadersRead (readerAt pre b) = (readerAdv pre b n, .error le) ∧ IpErrAgrees b e le := by
+  have h1 : 1 ≤ b.length := by omega
+  have hr := ipHeadersRead_v6_exts pre b h1 hp h40
+  have hw := lwalk_rel b (bAt b 6) 40 (be16 b 4) (st6 (be16 b 4)) (by simp [st6]) (by simp [st6])
+    (by simp [st6]) hpl
+  unfold Dec.ipv6AfterHeaderStrict Dec.ipv6BoundStrict
+  simp only [g16_memOf, Nat.zero_add]
+  rw [if_neg (by omega), if_neg (by omega)]
+  simp only [Dec.ipv6ChainStrict, Dec.extsWalkStrict]
+  have hnh : Dec.memOf b 6 = bAt b 6 := rfl
+  simp only [Nat.zero_add, hnh]
+  unfold LChainRel at hw
+  cases hstop : (Dec.extsWalk (Dec.memOf b) true (bAt b 6) 40 (be16 b 4)).stop with
+  | none =>
+    rw [hstop] at hw
+    obtain ⟨got', w1, w2, w3, w4⟩ := hw
+    simp only
+    rw [w1, w2] at hr
+    refine ⟨_, hr, ?_⟩
+    simp only [IpViewMatch, Dec.mkV6, sub_zero', if_true, true_and]
+    refine ⟨w3, ?_⟩
+    rw [w4, ← w2]
+    simp [gathered]
+  | some x =>
+    obtain ⟨e, ly⟩ := x
+    rw [hstop] at hw
+    simp only
+    cases e with
+    | len e =>
+      obtain ⟨le, w1, w2⟩ := hw
+      rw [w1] at hr
+      refine ⟨_, _, hr, ?_⟩
+      have hsrc : ¬ (((e.withSrc Dec.LenSource.ipv6HeaderPayloadLen).addOffset 40).src = Dec.LenSource.slice) := by
+        simp [Dec.LenError.withSrc, Dec.LenError.addOffset]
+      simp only [IpErrAgrees, if_neg hsrc]
+      exact ⟨le, rfl, lenErrAgrees_wrap _ e le w2⟩
+    | hopByHop =>
+      rw [hw] at hr
+      exact ⟨_, _, hr, rfl⟩
+    | authZero =>
+      rw [hw] at hr
+      exact ⟨_, _, hr, rfl⟩
+
+/-- **`IpHeaders::read` against `IpHeaders::from_slice`** for every byte string that holds the packet its
+    header announces -/
+theorem ipheaders_table (pre b : Bytes) (hH : HoldsAnnounced b) :
+    match Dec.ipHeadersFromSlice (Dec.memOf b) 0 b.length with
+    | .ok r => ∃ v, ipHeadersRead (readerAt pre b) = (readerAdv pre b r.pl.w.o, .ok v) ∧ IpViewMatch b r v
+    | .error e => ∃ n le, ipHeadersRead (readerAt pre b) = (readerAdv pre b n, .error le) ∧ IpErrAgrees b e le := by
+  have hg0 : Dec.memOf b 0 = bAt b 0 := rfl
+  unfold Dec.ipHeadersFromSlice Dec.ipDispatchHeader
+  simp only [hg0]
+  by_cases h0 : b.length = 0
+  · simp only [if_pos h0]
+    refine ⟨_, _, ipHeadersRead_empty pre b (by omega), ?_⟩
+    simp [IpErrAgrees]
+  · simp only [if_neg h0]
+    have h1 : 1 ≤ b.length := by omega
+    have hplan := plan_take b
+    by_cases hv4 : bAt b 0 / 16 = 4
+    · simp only [if_pos hv4] at hplan ⊢
+      by_cases hl20 : b.length < 20
+      · simp only [hl20, and_self, if_true]
+        by_cases hi : bAt b 0 % 16 < 5
+        · rw [if_pos hi] at hplan
+          refine ⟨_, _, ipHeadersRead_fail pre b h1 _ hplan, ?_⟩
+          simp only [IpErrAgrees, if_true]
+          exact .inr ⟨hl20, trivial⟩
+        · rw [if_neg hi] at hplan
+          refine ⟨_, _, ipHeadersRead_v4_short pre b h1 _ hplan (by omega), ?_⟩
+          simp [IpErrAgrees]
+      · simp only [hl20, and_false, if_false]
+        by_cases hi : bAt b 0 % 16 < 5
+        · rw [if_pos hi] at hplan
+          simp only [if_pos hi]
+          exact ⟨_, _, ipHeadersRead_fail pre b h1 _ hplan, rfl⟩
+        · rw [if_neg hi] at hplan
+          simp only [if_neg hi]
+          by_cases hs : b.length < bAt b 0 % 16 * 4
+          · simp only [if_pos hs]
+            refine ⟨_, _, ipHeadersRead_v4_short pre b h1 _ hplan (by omega), ?_⟩
+            simp [IpErrAgrees]
+          · simp only [if_neg hs]
+            exact ipv4_after pre b (bAt b 0 % 16 * 4) (by omega) (by omega) hplan (hH.1 hv4)
+    · simp only [if_neg hv4] at hplan ⊢
+      by_cases hv6 : bAt b 0 / 16 = 6
+      · simp only [if_pos hv6] at hplan ⊢
+        by_cases hl40 : b.length < 40
+        · simp only [if_pos hl40]
+          refine ⟨_, _, ipHeadersRead_v6_short pre b h1 hplan hl40, ?_⟩
+          simp [IpErrAgrees]
+        · simp only [if_neg hl40]
+          exact ipv6_after pre b (by omega) hplan (hH.2 hv6).1 (hH.2 hv6).2
+      · simp only [if_neg hv6] at hplan ⊢
+        exact ⟨_, _, ipHeadersRead_fail pre b h1 _ hplan, rfl⟩
+
 end LimitedReaders
 
 end EpModel.Lemmas.ReadVsSlice
